@@ -72,34 +72,53 @@ Print Assumptions C06_verify1_honest_reply.
 
 (* ---------------------------------------------------------------- (2) the three procedures *)
 
-(* verify_credentials() of MRP / Companion / AirPlay returns iff both exchanges got an answer,
-   the answer's pairing data parses (no Error item for MRP and Companion), carries PublicKey and
-   EncryptedData, and verify1 accepted them. *)
+(* verify_credentials() of MRP / Companion / AirPlay - for either value of the two per-module
+   facts k (Gen.cfg gives the current ones) - returns iff both exchanges got an answer, the first
+   answer's pairing data parses (and has no Error item where the module checks that), carries
+   PublicKey and EncryptedData, verify1 accepted them, and - where the module looks at the last
+   answer - that one parses too. *)
 Theorem C06_verify_credentials_accept_iff :
-  forall x25519 hkdf dec enc pk_load sig_ok sign p h c f1 pd f3 reply,
-  verify_credentials x25519 hkdf dec enc pk_load sig_ok sign p h c f1 pd f3 = Accept reply <->
+  forall x25519 hkdf dec enc pk_load sig_ok sign k p h c f1 pd f3 pd4 reply,
+  verify_credentials x25519 hkdf dec enc pk_load sig_ok sign k p h c f1 pd f3 pd4 = Accept reply <->
   f1 = None /\ f3 = None /\
+  (chk_m4 k = true -> exists t4, pairing_data k p pd4 = inl t4) /\
   exists t spub encd,
-    pairing_data p pd = inl t /\ get T_PublicKey t = Some spub /\ get T_EncryptedData t = Some encd /\
+    pairing_data k p pd = inl t /\ get T_PublicKey t = Some spub /\ get T_EncryptedData t = Some encd /\
     verify1 x25519 hkdf dec enc pk_load sig_ok sign h c spub encd = Accept reply.
 Proof.
-  intros. rewrite verify_credentials_accept_iff.
-  split; intros (H1 & H3 & t & spub & encd & Hp & Hs & He & Hv); (split; [exact H1|split; [exact H3|]]);
+  intros. rewrite verify_credentials_accept_iff. unfold m4_ok.
+  split; intros (H1 & H3 & H4 & t & spub & encd & Hp & Hs & He & Hv); (split; [exact H1|split; [exact H3|split; [exact H4|]]]);
     exists t, spub, encd; (split; [exact Hp|split; [exact Hs|split; [exact He|]]]);
     now apply verify1_accept_iff.
 Qed.
 Print Assumptions C06_verify_credentials_accept_iff.
+
+(* The third message leaves exactly when everything up to and including verify1 succeeded, and
+   it is then the encryption of our own signature TLV (see C06_verify1_accept_iff). *)
+Theorem C06_third_message_only_after_accept :
+  forall x25519 hkdf dec enc pk_load sig_ok sign k p h c f1 pd m,
+  m3_sent x25519 hkdf dec enc pk_load sig_ok sign k p h c f1 pd = Some m <->
+  f1 = None /\ exists t spub encd,
+    pairing_data k p pd = inl t /\ get T_PublicKey t = Some spub /\ get T_EncryptedData t = Some encd /\
+    verify1 x25519 hkdf dec enc pk_load sig_ok sign h c spub encd = Accept m.
+Proof.
+  intros. rewrite m3_sent_iff.
+  split; intros (H1 & t & spub & encd & Hp & Hs & He & Hv); (split; [exact H1|]);
+    exists t, spub, encd; (split; [exact Hp|split; [exact Hs|split; [exact He|]]]);
+    now apply verify1_accept_iff.
+Qed.
+Print Assumptions C06_third_message_only_after_accept.
 
 (* ---------------------------------------------------------------- (3) what the caller sees *)
 
 (* start() / verify_connection(): keys are installed iff verify_credentials returned, iff nothing
    is raised. *)
 Theorem C06_keys_iff_verified :
-  forall x25519 hkdf dec enc pk_load sig_ok sign p h c f1 pd f3,
-  (keys (connect x25519 hkdf dec enc pk_load sig_ok sign p h c f1 pd f3) = true <->
-   exists reply, verify_credentials x25519 hkdf dec enc pk_load sig_ok sign p h c f1 pd f3 = Accept reply) /\
-  (keys (connect x25519 hkdf dec enc pk_load sig_ok sign p h c f1 pd f3) = true <->
-   raised (connect x25519 hkdf dec enc pk_load sig_ok sign p h c f1 pd f3) = None).
+  forall x25519 hkdf dec enc pk_load sig_ok sign k p h c f1 pd f3 pd4,
+  (keys (connect x25519 hkdf dec enc pk_load sig_ok sign k p h c f1 pd f3 pd4) = true <->
+   exists reply, verify_credentials x25519 hkdf dec enc pk_load sig_ok sign k p h c f1 pd f3 pd4 = Accept reply) /\
+  (keys (connect x25519 hkdf dec enc pk_load sig_ok sign k p h c f1 pd f3 pd4) = true <->
+   raised (connect x25519 hkdf dec enc pk_load sig_ok sign k p h c f1 pd f3 pd4) = None).
 Proof. intros. split; [apply connect_keys_iff|apply connect_keys_iff_ok]. Qed.
 Print Assumptions C06_keys_iff_verified.
 
@@ -109,10 +128,10 @@ Print Assumptions C06_keys_iff_verified.
    long-term key, over both session public keys of THIS session (own_pub is the key generated by
    this verify round, which is what excludes a reply recorded in another session). *)
 Theorem C06_trusted_only_if_identity_proved :
-  forall x25519 hkdf dec enc pk_load sig_ok sign p h c f1 pd f3,
-  keys (connect x25519 hkdf dec enc pk_load sig_ok sign p h c f1 pd f3) = true ->
+  forall x25519 hkdf dec enc pk_load sig_ok sign k p h c f1 pd f3 pd4,
+  keys (connect x25519 hkdf dec enc pk_load sig_ok sign k p h c f1 pd f3 pd4) = true ->
   exists t spub encd shared pt it sg,
-    pairing_data p pd = inl t /\ get T_PublicKey t = Some spub /\ get T_EncryptedData t = Some encd /\
+    pairing_data k p pd = inl t /\ get T_PublicKey t = Some spub /\ get T_EncryptedData t = Some encd /\
     x25519 (v_priv h) spub = Some shared /\
     dec (hkdf salt_pv info_pv shared) nonce_m2 encd = Some pt /\
     read_tlv pt = TOk it /\
@@ -120,8 +139,8 @@ Theorem C06_trusted_only_if_identity_proved :
     get T_Signature it = Some sg /\
     sig_ok (ltpk c) (spub ++ atv_id c ++ v_pub h) sg = true.
 Proof.
-  intros until f3. intro K. apply connect_keys_iff in K as [reply K].
-  apply verify_credentials_accept_iff in K as (_ & _ & t & spub & encd & Hp & Hs & He & Hv).
+  intros until pd4. intro K. apply connect_keys_iff in K as [reply K].
+  apply verify_credentials_accept_iff in K as (_ & _ & _ & t & spub & encd & Hp & Hs & He & Hv).
   destruct Hv as (shared & pt & it & ident & sg & dsig & Ex & Ed & Et & Ei & Es & Eid & Ep & Eg & En & Er).
   subst ident. exists t, spub, encd, shared, pt, it, sg. repeat (split; [assumption|]). assumption.
 Qed.
@@ -129,14 +148,14 @@ Print Assumptions C06_trusted_only_if_identity_proved.
 
 (* ... and any other reply (no transport fault): AuthenticationError, no keys - all protocols. *)
 Theorem C06_any_other_reply_is_authentication_error :
-  forall x25519 hkdf dec enc pk_load sig_ok sign p h c pd,
-  (forall reply, verify_credentials x25519 hkdf dec enc pk_load sig_ok sign p h c None pd None <> Accept reply) ->
-  raised (connect x25519 hkdf dec enc pk_load sig_ok sign p h c None pd None) = Some EAuthentication /\
-  keys (connect x25519 hkdf dec enc pk_load sig_ok sign p h c None pd None) = false.
+  forall x25519 hkdf dec enc pk_load sig_ok sign k p h c pd pd4,
+  (forall reply, verify_credentials x25519 hkdf dec enc pk_load sig_ok sign k p h c None pd None pd4 <> Accept reply) ->
+  raised (connect x25519 hkdf dec enc pk_load sig_ok sign k p h c None pd None pd4) = Some EAuthentication /\
+  keys (connect x25519 hkdf dec enc pk_load sig_ok sign k p h c None pd None pd4) = false.
 Proof.
-  intros until pd. intro H.
-  assert (K: keys (connect x25519 hkdf dec enc pk_load sig_ok sign p h c None pd None) = false).
-  { destruct (keys (connect x25519 hkdf dec enc pk_load sig_ok sign p h c None pd None)) eqn:E; [|reflexivity].
+  intros until pd4. intro H.
+  assert (K: keys (connect x25519 hkdf dec enc pk_load sig_ok sign k p h c None pd None pd4) = false).
+  { destruct (keys (connect x25519 hkdf dec enc pk_load sig_ok sign k p h c None pd None pd4)) eqn:E; [|reflexivity].
     apply connect_keys_iff in E as [r E]. now apply H in E. }
   split; [now apply connect_reject|exact K].
 Qed.
@@ -159,18 +178,18 @@ Proof. intro e. split; [reflexivity|]. split; [apply error_handler_cases|apply a
 Print Assumptions C06_error_mapping.
 
 Theorem C06_fault_or_reply_error :
-  forall x25519 hkdf dec enc pk_load sig_ok sign p h c f1 pd f3 e,
-  raised (connect x25519 hkdf dec enc pk_load sig_ok sign p h c f1 pd f3) = Some e ->
-  keys (connect x25519 hkdf dec enc pk_load sig_ok sign p h c f1 pd f3) = false /\
+  forall x25519 hkdf dec enc pk_load sig_ok sign k p h c f1 pd f3 pd4 e,
+  raised (connect x25519 hkdf dec enc pk_load sig_ok sign k p h c f1 pd f3 pd4) = Some e ->
+  keys (connect x25519 hkdf dec enc pk_load sig_ok sign k p h c f1 pd f3 pd4) = false /\
   (e = EAuthentication \/ exists f, (f1 = Some f \/ f3 = Some f) /\ e = surface p f).
 Proof.
   intros until e. unfold connect.
-  destruct (verify_credentials x25519 hkdf dec enc pk_load sig_ok sign p h c f1 pd f3) as [r|e0] eqn:E; cbn; [discriminate|].
+  destruct (verify_credentials x25519 hkdf dec enc pk_load sig_ok sign k p h c f1 pd f3 pd4) as [r|e0] eqn:E; cbn; [discriminate|].
   intro H. inversion H; subst e. split; [reflexivity|].
   apply verify_credentials_fault in E as [E|[E|[_ E]]].
   - right. exists e0. auto.
   - right. exists e0. auto.
-  - left. apply surface_reply_error. exact (verify_credentials_raise_class _ _ _ _ _ _ _ _ _ _ _ _ E).
+  - left. apply surface_reply_error. exact (verify_credentials_raise_class _ _ _ _ _ _ _ _ _ _ _ _ _ _ E).
 Qed.
 Print Assumptions C06_fault_or_reply_error.
 
@@ -290,19 +309,21 @@ Definition ex_h := {| v_priv := [7]; v_pub := [4; 4] |}.
 Definition ex_c (id : bytes) := {| ltpk := [3; 3]; ltsk := [6]; atv_id := id; client_id := [67] |}.
 Definition ex_pd := write_tlv [(T_SeqNo, [2]); (T_PublicKey, [1; 2]); (T_EncryptedData, [42])].
 
+Definition ex_m4 := write_tlv [(T_SeqNo, [4])].
+
 Example C06_ex_accept :
-  forall p, t_connect (ex_tables true) p ex_h (ex_c [65; 66]) None ex_pd None = {| raised := None; keys := true |}
-         /\ t_verify_credentials (ex_tables true) p ex_h (ex_c [65; 66]) None ex_pd None = Accept [77; 77; 77].
+  forall p, t_connect (ex_tables true) (cfg p) p ex_h (ex_c [65; 66]) None ex_pd None ex_m4 = {| raised := None; keys := true |}
+         /\ t_verify_credentials (ex_tables true) (cfg p) p ex_h (ex_c [65; 66]) None ex_pd None ex_m4 = Accept [77; 77; 77].
 Proof. intros []; split; vm_compute; reflexivity. Qed.
 Example C06_ex_wrong_identifier :
-  forall p, t_connect (ex_tables true) p ex_h (ex_c [65; 67]) None ex_pd None = {| raised := Some EAuthentication; keys := false |}.
+  forall p, t_connect (ex_tables true) (cfg p) p ex_h (ex_c [65; 67]) None ex_pd None ex_m4 = {| raised := Some EAuthentication; keys := false |}.
 Proof. intros []; vm_compute; reflexivity. Qed.
 Example C06_ex_bad_signature :
-  forall p, t_connect (ex_tables false) p ex_h (ex_c [65; 66]) None ex_pd None = {| raised := Some EAuthentication; keys := false |}.
+  forall p, t_connect (ex_tables false) (cfg p) p ex_h (ex_c [65; 66]) None ex_pd None ex_m4 = {| raised := Some EAuthentication; keys := false |}.
 Proof. intros []; vm_compute; reflexivity. Qed.
 Example C06_ex_flipped_ciphertext :
-  forall p, t_verify_credentials (ex_tables true) p ex_h (ex_c [65; 66]) None
-              (write_tlv [(T_SeqNo, [2]); (T_PublicKey, [1; 2]); (T_EncryptedData, [43])]) None = Raises EInvalidTag
-         /\ t_connect (ex_tables true) p ex_h (ex_c [65; 66]) None
-              (write_tlv [(T_SeqNo, [2]); (T_PublicKey, [1; 2]); (T_EncryptedData, [43])]) None = {| raised := Some EAuthentication; keys := false |}.
+  forall p, t_verify_credentials (ex_tables true) (cfg p) p ex_h (ex_c [65; 66]) None
+              (write_tlv [(T_SeqNo, [2]); (T_PublicKey, [1; 2]); (T_EncryptedData, [43])]) None ex_m4 = Raises EInvalidTag
+         /\ t_connect (ex_tables true) (cfg p) p ex_h (ex_c [65; 66]) None
+              (write_tlv [(T_SeqNo, [2]); (T_PublicKey, [1; 2]); (T_EncryptedData, [43])]) None ex_m4 = {| raised := Some EAuthentication; keys := false |}.
 Proof. intros []; split; vm_compute; reflexivity. Qed.
